@@ -71,11 +71,12 @@ class Env:
 
 
 class LoopSpec:
-    def __init__(self, invariants=(), variant=None, unroll=None, havoc_extra=()):
+    def __init__(self, invariants=(), variant=None, unroll=None, havoc_extra=(), havoc_hook=None):
         self.invariants = list(invariants)
         self.variant = variant
         self.unroll = unroll
         self.havoc_extra = list(havoc_extra)
+        self.havoc_hook = havoc_hook      # (ex, env): havoc heap state the loop body changes through calls
 
 
 class Obligation:
@@ -1690,6 +1691,9 @@ class Executor:
                           self.fresh(name + '_val', z3.RealSort()), self.fresh(name + '_neg', z3.BoolSort()), v.pycls)
         if isinstance(v, VNone):
             return v
+        if isinstance(v, VObj):
+            return VObj(v.pycls, {k: self.havoc_like(f'{name}.{k}', f) for k, f in v.fields.items()},
+                        name=f'{name}!{self.fresh_count}')
         raise OutOfSubset(f'cannot havoc loop variable {name} = {v!r}')
 
     def inv_env(self, env: Env) -> Env:
@@ -1744,6 +1748,8 @@ class Executor:
             sq.len = self.fresh('seq_len', z3.IntSort())
             sq.arr = self.fresh('seq_arr', z3.ArraySort(z3.IntSort(), sq.kind.sort))
             self.path.pc.append(sq.len >= 0)
+        if spec.havoc_hook is not None:
+            spec.havoc_hook(self, env)
         ghost_i = env.lookup(f'_i{ordinal}')
         if ghost_i is not None:
             env.assign(f'_i{ordinal}', self.havoc_like(f'_i{ordinal}', ghost_i))
@@ -1835,7 +1841,7 @@ class Executor:
                 cond = lambda e: it.lo.t + e.lookup(gi).t < it.hi.t
                 prefix = lambda e: self.assign_target(node.target, VInt(it.lo.t + e.lookup(gi).t), e)
             inv_i = f'{gi} >= 0'
-            spec2 = LoopSpec([inv_i] + spec.invariants, spec.variant, None, spec.havoc_extra)
+            spec2 = LoopSpec([inv_i] + spec.invariants, spec.variant, None, spec.havoc_extra, spec.havoc_hook)
             # bound of the ghost index
             # (no implicit bound on the ghost index: the list may be mutated; contracts state it)
             return self.run_loop(node, env, spec2, cond, prefix)
